@@ -627,7 +627,7 @@ class G:
             for be in range(0, 2 ** eb - 1):
                 for frac in (0, (1 << fb) - 1, r.getrandbits(fb)):
                     sign = r.getrandbits(1)
-                    yield f"heven {op} {(sign << (fb + eb)) | (be << fb) | frac}"
+                    yield f"{self.mode()} {op} {(sign << (fb + eb)) | (be << fb) | frac}"
 
     def c13(self, n):
         r = self.r
@@ -635,10 +635,10 @@ class G:
         specials64 = [0, 1 << 63, 0x7ff0000000000000, 0xfff0000000000000, 0x7ff8000000000000, 0x7ff0000000000001, 1,
                       0x000fffffffffffff, 0x0010000000000000, 0x3ff0000000000000, 0x47e0000000000000,
                       0x47dfffffffffffff, 0xc7e0000000000000, 0x7fefffffffffffff]
-        for b in specials64: yield f"heven fromf64 {b}"
+        for b in specials64: yield f"{self.mode()} fromf64 {b}"
         specials32 = [0, 1 << 31, 0x7f800000, 0xff800000, 0x7fc00000, 1, 0x007fffff, 0x00800000, 0x3f800000, 0x7f000000,
                       0x7effffff, 0xff000000, 0x7f7fffff]
-        for b in specials32: yield f"heven fromf32 {b}"
+        for b in specials32: yield f"{self.mode()} fromf32 {b}"
         for _ in range(n):
             k = r.randrange(8)
             if r.random() < 0.55:
@@ -672,7 +672,7 @@ class G:
                 be = bias + r.randrange(0, 127)
                 bits = (be << fb) | (r.getrandbits(fb) & ~((1 << r.randrange(0, fb)) - 1))
             if r.random() < 0.4: bits |= 1 << (fb + eb)
-            yield f"heven {op} {bits}"
+            yield f"{self.mode()} {op} {bits}"
 
     # ---------------------------------------------------------------- C14
     def c14(self, n):
@@ -908,7 +908,18 @@ class G:
         """a request (no mode token, tokens joined by `_`) whose result depends on the rounding mode in effect:
         every operation family that consults the thread's default mode, in each of its branches"""
         r = self.r
-        k = r.randrange(12)
+        k = r.randrange(14)
+        if k >= 12:
+            # the 256-bit paths of div_rounded / mul_rounded / `/` / `*` under the thread's mode
+            if k == 12:
+                req = self.wide_boundary()
+            else:
+                y = r.choice([2 ** 126 + r.randrange(1, 50), r.randrange(2 ** 100, 2 ** 127), r.randrange(2 ** 64, 2 ** 100)])
+                qq = r.randrange(1, 100); rem = r.choice([1, 1, 2, y - 1, y // 2, y // 2 + 1, r.randrange(0, y)])
+                pw = r.randrange(1, 3)
+                x = self.clamp((qq * y + rem) // 10 ** pw)
+                req = f"m divr vv {x} 0 {y} 0 {pw}"
+            return "_".join(req.split()[1:])
         a = r.choice([1, -1]) * r.choice([10001, 10005, 15, 25, 35, 1, 2, 7, 29, 3, 12345, 10501, r.randrange(1, 10 ** 6)])
         b = r.choice([1, -1]) * r.choice([3, 7, 6, 9, 11, 300, 13, r.randrange(2, 1000)])
         if k == 0:     # div_rounded, dividend has more digits than result + divisor (second division by 10^shift)
